@@ -367,6 +367,8 @@ def analyse(desc, model, heating=None, cooling=None, net_kw=None):
         a.m_dense = rep[4]
         a.m_triples = rep[5]
         a.m_pattern = rep[6]
+        # text of the species rows as Model.OdeText writes them (C01.rhs_text_is_mass_action)
+        a.m_rowtext = model.call("ode.rowtext", a.nspec, a.rx, mods, a.heat, a.cool, a.aliases)
     return a
 
 
